@@ -83,6 +83,13 @@ def direct_checks(ctx, th, label, case):
                         de=float(de(T)), w=float(w(T)), csq=float(csq(T)))
             ctx.count("direct_" + label)
             bad = None
+            if not all(math.isfinite(v) for v in vals.values()):
+                ok = False
+                ctx.fail_input("%sT(%.6g): non-finite value %s [%s]" % (
+                    ph, T, {k: v for k, v in vals.items() if not math.isfinite(v)},
+                    label), dict(kind="nonfinite", phase=ph, T=T, values=vals, case=case),
+                    key="nonfinite:" + ph)
+                continue
             sc = abs(vals["p"]) + abs(T * vals["dp"]) + 1e-300
             if abs(vals["e"] - (T * vals["dp"] - vals["p"])) > 1e-10 * sc:
                 bad = "e != T dp - p"
@@ -115,7 +122,7 @@ def direct_checks(ctx, th, label, case):
                 a, b0, c = float(f(Tb - d)), float(f(Tb)), float(f(Tb + d))
                 ref = abs(b0) + 1e-300
                 ctx.count("continuity_" + label)
-                if abs(a - b0) > 1e-6 * ref or abs(c - b0) > 1e-6 * ref:
+                if not (abs(a - b0) <= 1e-6 * ref and abs(c - b0) <= 1e-6 * ref):
                     ok = False
                     ctx.fail_input(
                         "%s%sT jumps across %s%sT=%.8g: %.12g | %.12g | %.12g [%s]" % (
